@@ -21,6 +21,22 @@ theorem arg_checks_in_source :
 theorem keepalive_shape :
     Gen.appPingWaits = 2 ∧ Gen.appCheckOps = ["Gt", "Lt", "Gt"] ∧ Gen.dispatcherDefaultTimeout = 10 := by decide
 
+/-- the liveness predicate of the two models is the same function of (now, last_ping_tm, last_pong_tm):
+    `check()` in Model.App (integer arithmetic as in the code) = `checkFails` in Model.Keepalive. -/
+theorem C16_check_same (c : App.Cfg) (s : App.St) (k : Keepalive.St) (to : Nat) (hto : c.to = some (to : Int))
+    (h0 : to ≠ 0) (h1 : k.now = s.now) (h2 : k.lastPing = s.lastPing) (h3 : k.lastPong = s.lastPong) :
+    App.checkFails c s = Keepalive.checkFails to k := by
+  unfold App.checkFails Keepalive.checkFails
+  simp only [hto, h1, h2, h3]
+  by_cases hp : s.lastPing = 0
+  · simp [hp]
+  · have a1 : ((s.now : Int) - s.lastPing > to) ↔ (s.now - s.lastPing > to) := by omega
+    have a2 : ((s.lastPong : Int) - s.lastPing < 0) ↔ (s.lastPong < s.lastPing) := by omega
+    have a3 : ((s.lastPong : Int) - s.lastPing > to) ↔ (s.lastPong - s.lastPing > to) := by omega
+    have hne : ((to : Int) ≠ 0) := by omega
+    by_cases c1 : s.now - s.lastPing > to <;> by_cases c2 : s.lastPong < s.lastPing <;>
+      by_cases c3 : s.lastPong - s.lastPing > to <;> simp [a1, a2, a3, c1, c2, c3, hp, hne, h0]
+
 /-- **C16_args** — the settings `run_forever` accepts are exactly the consistent ones:
     timeout absent or positive, interval non-negative, and, when both are in use, interval > timeout. -/
 theorem C16_args (iv : Int) (to : Option Int) :
